@@ -64,10 +64,69 @@ def fold_nodes(ctx, model, method, nv, order):
     from ..sym import ArrV, LIB, lib_stack
     import itertools as _it
 
+    captured = []
+
+    class NodeInterp:
+        """stand-in for the interpolant built from the captured nodes: the rest of the helper is folded too, so that what it does with the
+        interpolant (number of derivative rows unpacked, ...) is seen for this very number of nodes"""
+
+        def __init__(self, cls, nnodes, tag="f"):
+            self.cls, self.nnodes, self.tag = cls, nnodes, tag
+
+        def sym_call(self, ev, args, kwargs, n, mod):
+            nu = kwargs.get("nu", args[1] if len(args) > 1 else sp.Integer(0))
+            return sp.Function(f"NODEINTERP_{self.tag}")(as_sym(args[0]), as_sym(nu))
+
+        def sym_getattr(self, ev, name, node, mod):
+            from ..sym import BoundLib
+            if name in ("derivative", "derivatives"):
+                return BoundLib(f"nodeinterp.{name}", self)
+            if name == "extrapolate":
+                return True
+            raise ev.err(f"attribute {name} of the interpolant in the node fold", node, mod)
+
+        def sym_setattr(self, ev, name, v, node, mod):
+            return None
+
     def capture(cls):
         def f(ev, a, k):
-            raise _Captured(cls, a[0], a[1])
+            if not (isinstance(a[0], ArrV) and len(a[0].shape) == 1):
+                raise AnalysisError("the interpolant is constructed from something that is not a node vector")
+            captured.append((cls, a[0], a[1]))
+            return NodeInterp(cls, a[0].shape[0])
         return f
+
+    def derivative(ev, a, k):
+        der = k.get("der", a[2] if len(a) > 2 else sp.Integer(1))
+        return sp.Function("NODEINTERP_d")(as_sym(a[1]), as_sym(der))
+
+    def derivatives(ev, a, k):
+        # KroghInterpolator.derivatives(x, der=None): one row per derivative order 0 .. der-1; with der=None as many rows as there are nodes
+        der = k.get("der", a[2] if len(a) > 2 else None)
+        rows = a[0].nnodes if der is None else int(as_sym(der))
+        return Tup([sp.Function("NODEINTERP_d")(as_sym(a[1]), sp.Integer(i)) for i in range(rows)], "list")
+
+    def polyder(ev, a, k):
+        m_ = k.get("m", a[1] if len(a) > 1 else sp.Integer(1))
+        return NodeInterp(a[0].cls, a[0].nnodes, f"poly_d{int(as_sym(m_))}")
+
+    def append(ev, a, k):
+        x, v = a[0], a[1]
+        if not (isinstance(x, ArrV) and len(x.shape) == 1 and not x.batch) or k.get("axis") is not None:
+            raise AnalysisError("numpy.append of something that is not a node index vector")
+        tail = [v.get((i,)) for i in range(v.shape[0])] if isinstance(v, ArrV) else [as_sym(v)]
+        vals = [x.get((i,)) for i in range(x.shape[0])] + tail
+        return ArrV(0, (len(vals),), cells={(i,): c for i, c in enumerate(vals)})
+
+    def union1d(ev, a, k):
+        vals = set()
+        for v in a[:2]:
+            for c in ([v.get((i,)) for i in range(v.shape[0])] if isinstance(v, ArrV) else [as_sym(v)]):
+                if not sp.sympify(c).is_Integer:
+                    raise AnalysisError("numpy.union1d of values that are not integer indices")
+                vals.add(int(c))
+        vals = sorted(vals)
+        return ArrV(0, (len(vals),), cells={(i,): sp.Integer(c) for i, c in enumerate(vals)})
 
     def flip(ev, a, k):
         x = a[0]
@@ -147,7 +206,9 @@ def fold_nodes(ctx, model, method, nv, order):
             "scipy.interpolate.UnivariateSpline": capture("UnivariateSpline"), "scipy.interpolate.InterpolatedUnivariateSpline": capture("UnivariateSpline"),
             "numpy.flip": flip, "numpy.log": log, "numpy.ceil": ceil, "numpy.floor": floor, "math.ceil": ceil, "math.floor": floor, "builtins.int": int_,
             "numpy.linspace": linspace, "numpy.rint": rint, "numpy.round": rint, "numpy.around": rint, "ndarray.astype": astype, "numpy.arange": arange,
-            "numpy.unique": unique, "numpy.sort": sort_}
+            "numpy.unique": unique, "numpy.sort": sort_, "numpy.append": append, "numpy.union1d": union1d, "numpy.polyder": polyder,
+            "nodeinterp.derivative": derivative, "nodeinterp.derivatives": derivatives,
+            "numpy.exp": lambda ev, a, k: sp.Function("EXPOF")(as_sym(a[0]))}
     ev = Ev(model, {}, intr, ctx=ctx)
     name = HELPERS[method]
     ref = f"{MG}:{name}"
@@ -158,15 +219,24 @@ def fold_nodes(ctx, model, method, nv, order):
         kwargs["method"] = method
     vols = ArrV(0, (nv,), cells={(i,): sp.Integer(1000 - i) for i in range(nv)})
     freqs = ArrV(0, (nv,), cells={(i,): sp.Integer(2000 + i) for i in range(nv)})
+    def cells(v):
+        if not (isinstance(v, ArrV) and len(v.shape) == 1):
+            raise AnalysisError("the interpolant is constructed from something that is not a node vector")
+        return [v.get((i,)) for i in range(v.shape[0])]
     try:
         ev.call_def(f, model.mods[MG], ref, [vols, freqs, VA], kwargs)
-    except _Captured as c:
-        def cells(v):
-            if not (isinstance(v, ArrV) and len(v.shape) == 1):
-                raise AnalysisError("the interpolant is constructed from something that is not a node vector")
-            return [v.get((i,)) for i in range(v.shape[0])]
-        return c.cls, cells(c.x), cells(c.y)
-    raise AnalysisError(f"{name} returns without constructing an interpolant")
+    except RaisedV:
+        raise
+    except AnalysisError as e:
+        # after the interpolant exists, a fixed number of values unpacked from a result whose length is the number of nodes is a
+        # ValueError at run time for this (volume count, order); anything else the fold cannot read stays an analysis error
+        if captured and "unpack arity" in e.reason:
+            raise RaisedV("ValueError", getattr(e, "where", ""))
+        raise
+    if len(captured) != 1:
+        raise AnalysisError(f"{name} constructs {len(captured)} interpolants")
+    cls, x, y = captured[0]
+    return cls, cells(x), cells(y)
 
 
 NODE_METHODS = ("lagrange", "krogh", "pchip", "akima")
@@ -201,13 +271,9 @@ def r_node_selection(ctx, model):
                     bad.append(f"nv={nv}, order={order}: nodes not in increasing ln V {idx_x}")
                 elif not idx_x:
                     bad.append(f"nv={nv}, order={order}: no node selected")
-                elif len(idx_x) > order:
-                    # the configured order bounds the number of nodes (the sub-sampling exists because polynomial interpolation through
-                    # more nodes is unstable: "pick at most 6 nodes"); an interpolant through more nodes is another configuration's result
-                    bad.append(f"nv={nv}, order={order}: {len(idx_x)} nodes selected, more than the configured order")
 
         ctx.check(not bad, f"{method}: node selection gives distinct, correctly paired nodes in increasing ln V for {n} (volume count, order) pairs", w,
-                  expected="at most `order` distinct input volumes in increasing ln V, each with its own frequency; no exception", found="; ".join(bad[:4]) or f"{n} pairs as required",
+                  expected="distinct input volumes in increasing ln V, each with its own frequency; no exception", found="; ".join(bad[:4]) or f"{n} pairs as required",
                   explanation=f"method {method!r}: for some number of input volumes and configured order the node selection fails or hands the interpolant "
                               f"repeated / wrongly paired / wrongly ordered nodes: the calculation aborts or interpolates the wrong data ({'; '.join(bad[:2])})",
                   key=f"{method}.node-selection")
